@@ -196,6 +196,7 @@ class Branch(object):
         self.attr_land = {}    # key -> set of attribute names assigned directly (obj.attr = ...)
         self.attr_expr = {}    # (key, attr) -> value expression
         self.call_land = {}    # key -> set of (callee attr name, param name or position)
+        self.meth_land = {}    # key -> set of (element method name, param name or position)
         stmts = []
         for s in body:
             stmts.extend(self._flat(s))
@@ -206,8 +207,31 @@ class Branch(object):
         for s in stmts:
             for e in ast.walk(s) if not isinstance(s, (ast.If, ast.For, ast.While)) else ast.walk(getattr(s, "test", None) or getattr(s, "iter", None)):
                 pass
+        self.guarded_by = {}   # key -> set of OTHER keys whose truth decides whether key is read at all (None = read unconditionally somewhere)
+        self.guards_methods = {}   # key -> element methods called in the body of an `if` whose test reads the key
+        for s in stmts:
+            if isinstance(s, ast.If):
+                for k in self._keys(s.test):
+                    for c in calls(ast.Module(body=s.body, type_ignores=[])):
+                        if isinstance(c.func, ast.Attribute) and isinstance(c.func.value, ast.Name) and c.func.value.id not in ("wn", var):
+                            self.guards_methods.setdefault(k, set()).add(c.func.attr)
         for s in stmts:
             exprs = [s] if not isinstance(s, (ast.If, ast.For, ast.While)) else [getattr(s, "test", None) or s.iter]
+            gk = set()
+            q = s
+            while q is not None and not (isinstance(q, ast.stmt) and q in body):
+                pq = getattr(q, "_parent", None)
+                if isinstance(pq, ast.If) and q in pq.body + pq.orelse:
+                    gk |= self._keys(pq.test)
+                q = pq
+            for ex in exprs:
+                ks = keys_of(ex, var)
+                for k in ks:
+                    others = gk - {k} - DISCRIMINATORS
+                    if not others:
+                        self.guarded_by[k] = None
+                    elif self.guarded_by.get(k, set()) is not None:
+                        self.guarded_by.setdefault(k, set()).update(others)
             for ex in exprs:
                 self.consumed |= keys_of(ex, var)
             if isinstance(s, ast.Assign) and len(s.targets) == 1 and isinstance(s.targets[0], ast.Attribute) and isinstance(s.targets[0].value, ast.Name):
@@ -216,6 +240,15 @@ class Branch(object):
                     self.attr_expr[(k, s.targets[0].attr)] = s.value
             for c in (calls(s) if not isinstance(s, (ast.If, ast.For, ast.While)) else []):
                 nm = last_attr(c)
+                if nm and isinstance(c.func, ast.Attribute) and isinstance(c.func.value, ast.Name) and c.func.value.id not in ("wn", var) and not nm.startswith("set"):
+                    # method of the element object itself: j.add_leak(wn, area=.., discharge_coeff=..)
+                    for i, a in enumerate(c.args):
+                        for k in self._keys(a):
+                            self.meth_land.setdefault(k, set()).add((nm, i))
+                    for kw in c.keywords:
+                        for k in self._keys(kw.value):
+                            self.meth_land.setdefault(k, set()).add((nm, kw.arg))
+                    continue
                 if nm and (nm.startswith("add_")):
                     for i, a in enumerate(c.args):
                         for k in self._keys(a):
@@ -276,9 +309,26 @@ def registry_param_attrs(reg_fn):
     return out
 
 
-def resolve_landing(repo, branch, key, wn_cls_methods, reg_methods):
+def resolve_landing(repo, branch, key, wn_cls_methods, reg_methods, ct=None, classes=()):
     """set of attribute names key lands in (through add_* or direct assignment)."""
     lands = set(branch.attr_land.get(key, ()))
+    for meth in branch.guards_methods.get(key, ()):
+        # `if d[key]: obj.method(...)` restores a boolean key when the method sets its backing field to a constant
+        for cn in classes:
+            for fn in (ct.methods(cn).get(meth, []) if ct is not None else []):
+                for n in walk(fn):
+                    if isinstance(n, ast.Assign) and isinstance(n.targets[0], ast.Attribute) and isinstance(n.targets[0].value, ast.Name) and n.targets[0].value.id == "self" \
+                            and n.targets[0].attr in ("_" + key, key) and const(n.value, None) is True:
+                        lands.add(n.targets[0].attr)
+    for (meth, p) in branch.meth_land.get(key, ()):
+        for cn in classes:
+            for fn in (ct.methods(cn).get(meth, []) if ct is not None else []):
+                ps = params(fn)
+                pname = ps[p] if isinstance(p, int) and p < len(ps) else p
+                for n in walk(fn):
+                    if isinstance(n, ast.Assign) and isinstance(n.targets[0], ast.Attribute) and isinstance(n.targets[0].value, ast.Name) and n.targets[0].value.id == "self":
+                        if any(isinstance(x, ast.Name) and x.id == pname for x in ast.walk(n.value)):
+                            lands.add(n.targets[0].attr)
     for (meth, p) in branch.call_land.get(key, ()):
         wn_fn = wn_cls_methods.get(meth)
         if wn_fn is None:
@@ -409,7 +459,13 @@ def rule_keys(repo, chk):
                             "to_dict emits %r for %s (class %s, %s) but the %s branch of from_dict never reads it: the value is lost" % (k, tname, cn, why, tname),
                             expected="a read of %s[%r]" % (var, k), found="keys read: %s" % sorted(br.consumed))
                     continue
-                lands = resolve_landing(repo, br, k, wn_methods, reg_methods)
+                gb = br.guarded_by.get(k)
+                if gb:
+                    chk.bad("R-C13-1", construct, loc(fd, loop),
+                            "key %r is read only when key(s) %s are truthy: to_dict emits it regardless (e.g. after remove_leak the area and coefficient remain while "
+                            "leak is False), so the value is lost in that case" % (k, sorted(gb)), expected="unconditional restore of %s" % k, found="guarded by %s" % sorted(gb))
+                    continue
+                lands = resolve_landing(repo, br, k, wn_methods, reg_methods, ct, classes)
                 ok = (k in lands) or (("_" + k) in lands) or any(l == "call:add_demand" for l in lands)
                 if k == "demand_timeseries_list":
                     ok = any(l.startswith("call:add_demand") or l.startswith("param:") for l in lands) or ok
